@@ -152,6 +152,9 @@ W2 == {0 - 1, 2}
 V3 == {0 - 1, 0, 1}
 V2 == {0 - 1, 2}
 V4 == {0 - 2, 0, 1, 3}
+V01 == {0, 1}
+W1 == {2}
+SchemesChain == {<<"linear", "step">>, <<"step", "linear", "linear">>, <<"clip", "step", "abs", "linear">>}
 SchemesLinear == {<<"linear">>}
 SchemesTwo    == {<<"linear">>, <<"step", "abs">>}
 SchemesQuick  == {<<"linear">>, <<"step", "linear">>, <<"clip", "abs">>}
